@@ -21,6 +21,14 @@ pub fn observe(p: &Program, json: Option<&JsonVariant>) -> Observed {
         None => (p.schema.render_sdl(), "graphql"),
         Some(v) => (p.schema.render_json(v), "json"),
     };
+    // Before the call under observation, the same query FILE meets a decoy schema: the same
+    // definitions in reverse order (every type and field keeps its name and gets another index).
+    // Whatever the library remembers from that call must not leak into the next one.
+    if json.is_none() && p.schema.defs.len() > 1 {
+        let mut decoy = p.schema.clone();
+        decoy.defs.reverse();
+        let _ = runner::generate(&decoy.render_sdl(), ext, &text, &p.opts);
+    }
     let oc = runner::generate(&schema_text, ext, &text, &p.opts);
     match &oc {
         Outcome::Ok(ts) => match runner::modules(&oc) {
